@@ -66,12 +66,52 @@ def is_const_obj(ty):
     return t.startswith("const ") or t.endswith(" const")
 
 
+STD_TUPLES = ("std::pair", "std::tuple")
+
+
+def tuple_fields(ty):
+    """(template name, [field type, ...]) of std::pair<A, B> / std::tuple<A, ...>; None for every other type"""
+    t = bare_ty(ty)
+    for name in STD_TUPLES:
+        if not (t.startswith(name + "<") and t.endswith(">")):
+            continue
+        out, depth, cur = [], 0, ""
+        for ch in t[len(name) + 1:-1]:
+            if ch in "<([{":
+                depth += 1
+            elif ch in ">)]}":
+                depth -= 1
+                if depth < 0:
+                    return None
+            if ch == "," and depth == 0:
+                out.append(cur.strip())
+                cur = ""
+            else:
+                cur += ch
+        if depth != 0:
+            return None
+        if cur.strip():
+            out.append(cur.strip())
+        if any(not f for f in out) or (name == "std::pair" and len(out) != 2):
+            return None
+        return name, out
+    return None
+
+
+def is_tuple(v):
+    """value of a std::pair / std::tuple: an aggregate whose fields are numbered 0, 1, ..."""
+    return v is not None and v[0] == "agg" and tuple_fields(v[1]) is not None
+
+
 def const_tree(n):
-    """n is an integer constant or a (nested) initialiser list of integer constants"""
+    """n is an integer constant or a (nested) initialiser list / std::pair / std::tuple of integer constants"""
+    n = unwrap(n)
     if n is None:
         return False
     if n["k"] == "InitListExpr":
         return bool(kids(n)) and all(const_tree(c) for c in kids(n))
+    if n["k"] in CONSTRUCTS and n.get("callee", {}).get("record") in STD_TUPLES and tuple_fields(n.get("ty")):
+        return len(kids(n)) == len(tuple_fields(n["ty"])[1]) and all(const_tree(c) for c in kids(n))
     return const_int(n) is not None
 
 
@@ -242,6 +282,12 @@ class NetInterp:
                     self.not_understood(n, fn)
                 cells.append([v])
             return ("arr", cells)
+        if k in CONSTRUCTS and n.get("callee", {}).get("record") in STD_TUPLES:
+            return self.make_tuple(n, kids(n), env, fn, False)
+        if k == "CallExpr" and is_std(n, ("make_pair", "make_tuple", "tie", "forward_as_tuple")):
+            return self.make_tuple(n, kids(n), env, fn, True)
+        if k == "CallExpr" and is_std(n, ("get",)):
+            return self.load(self.lcell(n, env, fn), n, fn)
         if k == "InitListExpr" and not is_cs_ty(n.get("ty")) and self.record_of(n.get("ty")) is not None:
             return self.aggregate(n, self.record_of(n.get("ty")), env, fn)
         if k in CONSTRUCTS or k == "InitListExpr":
@@ -406,9 +452,25 @@ class NetInterp:
             if len(kids(n)) != 1 or n.get("arrow") or n.get("method") or n.get("static"):
                 self.not_understood(n, fn)
             base = self.value(kids(n)[0], env, fn)
+            if is_tuple(base) or n.get("owner") in STD_TUPLES:
+                # p.first / p.second of a std::pair
+                idx = {"first": 0, "second": 1}.get(n.get("member"))
+                if not is_tuple(base) or n.get("owner") != "std::pair" or not base[1].startswith("std::pair<") or idx is None:
+                    self.not_understood(n, fn)
+                return base[2][idx]
             if base[0] != "agg" or n.get("mid") not in base[2]:
                 self.not_understood(n, fn)
             return base[2][n["mid"]]
+        if n["k"] == "CallExpr" and is_std(n, ("get",)):
+            # std::get<I>(pair or tuple)
+            targs = n["callee"].get("targs") or []
+            m = re.fullmatch(r"(\d+)[uUlL]*", str(targs[0]).strip()) if targs else None      # std::get<Type> is not modelled
+            if len(kids(n)) != 1 or kids(n)[0] is None or kids(n)[0]["k"] == "DefaultArg" or not m:
+                self.not_understood(n, fn)
+            base = self.value(kids(n)[0], env, fn)
+            if not is_tuple(base) or int(m.group(1)) not in base[2]:
+                self.not_understood(n, fn)
+            return base[2][int(m.group(1))]
         pl = self.place(n, env, fn)
         if pl is None:
             return None
@@ -423,12 +485,13 @@ class NetInterp:
         short = rec["qname"].rsplit("::", 1)[-1]
         return any(m.get("name") in (short, "~" + short, "operator=") for m in rec.get("methods", []))
 
-    def bind_ref(self, a, env, fn, what):
+    def bind_ref(self, a, env, fn, what, blank_ok=False):
         """cell a reference is bound to: the object itself for an lvalue the interpreter can name, a new cell for a
-        temporary"""
+        temporary.  blank_ok: the object may hold no value yet (std::tie on variables that are assigned through it)"""
         cell = self.lcell(a, env, fn)
         if cell is not None:
-            self.load(cell, a, fn)
+            if not (blank_ok and cell[0] is None):
+                self.load(cell, a, fn)
             return cell
         v = self.value(a, env, fn)
         if v[0] in MUTABLE and unwrap(a).get("lv"):
@@ -455,6 +518,73 @@ class NetInterp:
                                          % (fn.nloc(n), f.get("name"), dtable.describe(a)))
             cells[f["mid"]] = [v if array_dims(f.get("ty")) else decay(v)]
         return ("agg", rec["full"], cells, frozenset(refs))
+
+    def field_val(self, v, fty, n, fn):
+        """value a non-reference field of type fty of a std::pair / std::tuple holds when it is initialised from v"""
+        if v[0] == "slot":
+            raise dtable.Undecidable("%s: a field of a pair / tuple is a copy of an element, not the element: %s"
+                                     % (fn.nloc(n), dtable.describe(n)))
+        if v[0] in ("int", "bool"):
+            return self.wrap(v[1], fty, fn, n)
+        return copy_val(v if array_dims(fty) else decay(v))
+
+    def make_tuple(self, n, args, env, fn, elementwise):
+        """std::pair / std::tuple: constructor call (no argument, one initialiser per field, or another pair / tuple
+        with as many fields) and std::make_pair / make_tuple / tie / forward_as_tuple (one argument per field).  The
+        fields are numbered; a field of reference type shares the cell of the object it is bound to"""
+        tf = tuple_fields(n.get("ty"))
+        if tf is None or any(a is None or a["k"] == "DefaultArg" for a in args):
+            self.not_understood(n, fn)
+        name, ftys = tf
+        full = bare_ty(n["ty"])
+        cells, refs = {}, set()
+        if not elementwise:
+            if n["callee"].get("record") != name or n["callee"].get("name") != name[5:]:
+                self.not_understood(n, fn)
+            if not args:
+                for i, t in enumerate(ftys):                 # value-initialised fields
+                    if is_ref_ty(t):
+                        self.not_understood(n, fn)
+                    b = bare_ty(t)
+                    cells[i] = [("bool", False) if b == "bool" else ("int", 0) if b in INT_TYPES else None]
+                return ("agg", full, cells, frozenset())
+            if len(args) == 1 and tuple_fields(unwrap(args[0]).get("ty")) is not None:
+                # copy / move / converting constructor: field by field from the other pair or tuple
+                if len(ftys) == 1 and tuple_fields(ftys[0]) is not None:
+                    self.not_understood(n, fn)
+                src = self.value(args[0], env, fn)
+                if not is_tuple(src) or len(src[2]) != len(ftys):
+                    self.not_understood(n, fn)
+                for i, t in enumerate(ftys):
+                    if is_ref_ty(t):
+                        refs.add(i)
+                        cells[i] = src[2][i]
+                    else:
+                        cells[i] = [self.field_val(self.load(src[2][i], args[0], fn), t, n, fn)]
+                return ("agg", full, cells, frozenset(refs))
+        if len(args) != len(ftys):
+            self.not_understood(n, fn)
+        for i, (t, a) in enumerate(zip(ftys, args)):
+            if is_ref_ty(t):
+                refs.add(i)
+                cells[i] = self.bind_ref(a, env, fn, "reference field %d of a tuple" % i, blank_ok=True)
+            else:
+                cells[i] = [self.field_val(self.value(a, env, fn), t, a, fn)]
+        return ("agg", full, cells, frozenset(refs))
+
+    def assign_tuple(self, n, lhs, rhs, env, fn):
+        """pair / tuple = pair / tuple: field by field in order, through the reference fields of std::tie"""
+        tv, rv = self.value(lhs, env, fn), self.value(rhs, env, fn)
+        if not is_tuple(tv) or not is_tuple(rv) or len(tv[2]) != len(rv[2]):
+            self.not_understood(n, fn)
+        ftys = tuple_fields(tv[1])[1]
+        for i in range(len(ftys)):
+            cell = tv[2][i]
+            v = decay(self.load(rv[2][i], rhs, fn))
+            if (cell[0] is not None and cell[0][0] not in MUTABLE) or v[0] not in MUTABLE:
+                raise dtable.Undecidable("%s: assignment through %s (an element or a functor is overwritten)"
+                                         % (fn.nloc(n), dtable.describe(lhs)))
+            cell[0] = self.wrap(v[1], ftys[i], fn, n) if v[0] in ("int", "bool") else v
 
     def cell_of(self, e, env, fn):
         cell = self.lcell(e, env, fn)
@@ -483,6 +613,9 @@ class NetInterp:
                 self.not_understood(n, fn)
             return self.exec_expr(kids(n)[1] if c else kids(n)[2], env, fn, out)
         b = match.binop(n, ASSIGN)
+        if b and b[0] == "=" and tuple_fields((unwrap(b[1]) or {}).get("ty")) is not None:
+            self.assign_tuple(n, b[1], b[2], env, fn)
+            return None
         if b:
             cell = self.cell_of(b[1], env, fn)
             rhs = decay(self.value(b[2], env, fn))
@@ -537,6 +670,14 @@ class NetInterp:
                     raise dtable.Undecidable("%s: callee %s has no body in the IR" % (fn.nloc(n), c["qname"]))
                 st, _ = self.invoke(self.tu.by_did[c["did"]], args, env, fn, out, fn.nloc(n))
                 return st
+            if is_std(n, ("swap",)) and k == "CallExpr" and len(args) == 2:
+                # std::swap of two iterator / integer variables (a swap of elements is not a compare-exchange: not modelled)
+                x, y = self.cell_of(args[0], env, fn), self.cell_of(args[1], env, fn)
+                if x[0] is None or y[0] is None or x[0][0] not in MUTABLE or y[0][0] not in MUTABLE or x[0][0] != y[0][0] \
+                        or bare_ty(args[0].get("ty")) != bare_ty(args[1].get("ty")):
+                    self.not_understood(n, fn)
+                x[0], y[0] = y[0], x[0]
+                return None
             if is_std(n, ("advance",)) and len(args) == 2:
                 cell = self.cell_of(args[0], env, fn)
                 step = num(self.value(args[1], env, fn))
@@ -660,7 +801,7 @@ class NetInterp:
                 if self.steps > FUEL:
                     raise dtable.Undecidable("%s: loop does not finish within %d statements" % (fn.nloc(s), FUEL))
                 # the loop variable is the element (reference) or a copy of it (an inner array decays to a pointer)
-                env[var["did"]] = cell if byref else [decay(self.load(cell, kids(s)[0], fn))]
+                env[var["did"]] = cell if byref else [copy_val(decay(self.load(cell, kids(s)[0], fn)))]
                 self.load(env[var["did"]], kids(s)[0], fn)
                 r = self.run_stmt(kids(s)[2], env, fn, out)
                 if r == "break":
@@ -685,6 +826,12 @@ class NetInterp:
                     continue
                 if isref:
                     env[v["did"]] = self.bind_ref(init, env, fn, "reference %s" % v.get("name"))     # alias
+                    continue
+                if init["k"] in CONSTRUCTS and not kids(init) and not v.get("static") and any(
+                        bare_ty(p.get("ty")) == bare_ty(ty) and (env.get(p["did"]) or [None])[0] is not None
+                        and env[p["did"]][0][0] == "it" for p in fn.params):
+                    # 'Iterator x;' for an iterator of class type: holds no position until it is assigned
+                    env[v["did"]] = [None]
                     continue
                 val = self.value(init, env, fn)
                 if val[0] == "slot":
@@ -918,6 +1065,59 @@ class CswapEval:
             return ops[1] if self.cmp(b, a) else ops[0]
         return ops[1] if self.cmp(a, b) else ops[0]
 
+    def tuple_of(self, n, args, env, fn, elementwise):
+        """('tup', [cell, ...]) for a std::pair / std::tuple: a constructor call (one initialiser per field, or another
+        pair / tuple) or std::make_pair / make_tuple / tie / forward_as_tuple.  A field of reference type shares the
+        cell of the variable it is bound to, every other field is a copy"""
+        tf = tuple_fields(n.get("ty"))
+        if tf is None or not args or any(a is None or a["k"] == "DefaultArg" for a in args):
+            self.und(fn, n, "pair / tuple")
+        ftys = tf[1]
+        if not elementwise:
+            if n["callee"].get("record") != tf[0] or n["callee"].get("name") != tf[0][5:]:
+                self.und(fn, n, "pair / tuple")
+            if len(args) == 1 and tuple_fields(unwrap(args[0]).get("ty")) is not None:
+                src = self.ev(args[0], env, fn)
+                if len(ftys) == 1 and tuple_fields(ftys[0]) is not None:
+                    self.und(fn, n, "pair / tuple")
+                if not isinstance(src, tuple) or src[0] != "tup" or len(src[1]) != len(ftys):
+                    self.und(fn, n, "pair / tuple")
+                return ("tup", [c if is_ref_ty(t) else [self.field(c[0], fn, n)] for t, c in zip(ftys, src[1])])
+        if len(args) != len(ftys):
+            self.und(fn, n, "pair / tuple")
+        cells = []
+        for t, a in zip(ftys, args):
+            cell = self.lv(a, env, fn) if is_ref_ty(t) else None
+            if is_ref_ty(t) and cell is None and unwrap(a).get("lv"):
+                self.und(fn, a, "object a reference field of the tuple is bound to")
+            cells.append(cell if cell is not None else [self.field(self.ev(a, env, fn), fn, a)])
+        return ("tup", cells)
+
+    def field(self, x, fn, n):
+        """a field of a pair / tuple holds an element, a truth value or nothing yet (a moved-from / default value is
+        not modelled)"""
+        if x in ("L", "R") or isinstance(x, bool):
+            return x
+        self.und(fn, n, "field of a pair / tuple")
+
+    def tuple_cell(self, n, env, fn):
+        """cell of p.first / p.second / std::get<I>(p); None when n has another form"""
+        if n["k"] == "MemberExpr" and n.get("owner") == "std::pair" and len(kids(n)) == 1 and not n.get("arrow") \
+                and not n.get("method") and n.get("member") in ("first", "second"):
+            base, idx = self.ev(kids(n)[0], env, fn), ("first", "second").index(n["member"])
+        elif n["k"] == "CallExpr" and is_std(n, ("get",)) and len(kids(n)) == 1 and kids(n)[0] is not None \
+                and kids(n)[0]["k"] != "DefaultArg":
+            targs = n["callee"].get("targs") or []
+            m = re.fullmatch(r"(\d+)[uUlL]*", str(targs[0]).strip()) if targs else None
+            if not m:
+                self.und(fn, n, "std::get")
+            base, idx = self.ev(kids(n)[0], env, fn), int(m.group(1))
+        else:
+            return None
+        if not isinstance(base, tuple) or base[0] != "tup" or not 0 <= idx < len(base[1]):
+            self.und(fn, n, "field access")
+        return base[1][idx]
+
     def lv(self, e, env, fn):
         """cell of an lvalue expression; None when e is not an lvalue of an understood form"""
         n = unwrap(e)
@@ -928,6 +1128,10 @@ class CswapEval:
             return env.get(n["ref"]["id"])
         if ir.is_this_member(n):
             return self.cmpcell
+        if k in ("MemberExpr", "CallExpr"):
+            cell = self.tuple_cell(n, env, fn)
+            if cell is not None:
+                return cell
         if k == "ConditionalOperator":
             return self.lv(kids(n)[1] if self.truth(kids(n)[0], env, fn) else kids(n)[2], env, fn)
         if is_std(n, ("move", "forward", "as_const")) and len(kids(n)) == 1:
@@ -952,6 +1156,10 @@ class CswapEval:
             raise dtable.Undecidable("%s: unbound variable in the compare-exchange functor" % fn.nloc(n))
         if const_int(n) is not None:
             return bool(const_int(n))
+        if k in CONSTRUCTS and n.get("callee", {}).get("record") in STD_TUPLES:
+            return self.tuple_of(n, kids(n), env, fn, False)
+        if k == "CallExpr" and is_std(n, ("make_pair", "make_tuple", "tie", "forward_as_tuple")):
+            return self.tuple_of(n, kids(n), env, fn, True)
         if k in CONSTRUCTS and len(kids(n)) == 1 and kids(n)[0] is not None and kids(n)[0]["k"] != "DefaultArg":
             return self.ev(kids(n)[0], env, fn)            # copy / move of an element or of the comparator
         if k == "UnaryOperator" and n.get("op") == "!":
@@ -1049,6 +1257,16 @@ class CswapEval:
             cells[0][0], cells[1][0] = cells[1][0], cells[0][0]
             return
         b = match.binop(n, ("=",))
+        if b and tuple_fields((unwrap(b[1]) or {}).get("ty")) is not None:
+            # pair / tuple = pair / tuple: field by field in order, through the reference fields of std::tie
+            tv, rv = self.ev(b[1], env, fn), self.ev(b[2], env, fn)
+            if not (isinstance(tv, tuple) and isinstance(rv, tuple) and tv[0] == "tup" and rv[0] == "tup" and len(tv[1]) == len(rv[1])):
+                self.und(fn, n, "assignment of a pair / tuple")
+            for tc, rc in zip(tv[1], rv[1]):
+                if tc is self.cmpcell or rc is self.cmpcell:
+                    self.und(fn, n, "assignment of a pair / tuple")
+                tc[0] = self.field(rc[0], fn, n)
+            return
         if b:
             cell = self.lv(b[1], env, fn)
             if cell is None or cell is self.cmpcell:
